@@ -73,6 +73,19 @@ def run(ctx):
                          {"cmd": "vh lifecycle " + " ".join(args), "nonconf": n})
 
     bins = binaries_on_corpus(ctx, gdir, thorough)
+    # programs enumerated by Scopes.tla (namesakes of builtins / std packages, calls without arguments): every checker on every one
+    from props import scopes_common as sc
+    sc.design(ctx)
+    byid, sobs, _ = sc.run(ctx)
+    scope_programs = 0
+    for o in sobs:
+        if not o["typeOK"]:
+            continue
+        scope_programs += 1
+        for pmsg in o["panics"] or []:
+            chk = pmsg.split(":")[0]
+            ctx.fail("Panic %s" % chk, "Panic in checker %s on a program with a user-defined %s (%s, %s): %s"
+                     % (chk, o["subject"], byid[o["case"]]["Shape"], o["resolved"], pmsg[:300]), {"subject": o["subject"], "case": byid[o["case"]], "source": o["src"]})
 
     # anti-vacuity: a trace with a missing walk (panic) must be rejected
     def drop(e):
@@ -83,7 +96,7 @@ def run(ctx):
     cov = {
         "states": st, "transitions": tr, "traces_validated_against_impl": len(plans),
         "events_validated": events, "checks": checks, "files": files,
-        "corpora": [p[0] for p in plans], "binary_runs": bins, "design": design, "generated": gen_stats, "exhaustive": False,
+        "corpora": [p[0] for p in plans], "binary_runs": bins, "scopes_programs": scope_programs, "design": design, "generated": gen_stats, "exhaustive": False,
         "samples": samples[:5] or ["(none)"],
     }
     return ctx.finish("model_checking", cov, ["per-Check deadline 60 s; panics are recovered per Check so the run continues"])
